@@ -4,6 +4,16 @@ from .. import common, codec, coqrun, filerun, sessrun
 from .c06 import TRUSTED
 
 
+def run_tsan(exe, line):
+    import subprocess, os
+    env = dict(os.environ, VERIF_TMPDIR=common.BUILD, VERIF_ALLOC_CAP=str(1 << 28), TSAN_OPTIONS='halt_on_error=0 report_signal_unsafe=0')
+    try:
+        p = subprocess.run(['timeout', '600', exe], input=(line + '\n').encode(), capture_output=True, env=env, timeout=700)
+        return p.returncode, p.stdout.decode(errors='replace'), p.stderr.decode(errors='replace')
+    except subprocess.TimeoutExpired:
+        return 124, 'HANG', ''
+
+
 def run(v, tier, seed, replay=None):
     meta, _ = common.translate()
     ok, failed, info = coqrun.prove(v, 'C11', ['Inst/SkelEq.v', 'Inst/QueueEq.v', 'Inst/SyncEq.v'])
@@ -29,6 +39,30 @@ def run(v, tier, seed, replay=None):
             elif not (o.startswith('FE ok') or o.startswith('FS ok')):
                 nbad += 1
                 v.violation('C11:%s:other' % kind, 'a %s session did not finish: %s [%s]' % (kind, o[:80], name), {'scenario': line[:120], 'implementation': o[:300]})
+    # ThreadSanitizer (happens-before analysis) on plain sessions through the documented API, with no accessor call
+    # between open() and the first read()/write(): a race between the application thread and a worker, or between the
+    # workers, is reported with both stacks
+    tsan = common.build_harness('file', variant='tsan')
+    data2, _ = sessrun.big_read_file(mexe, 1500, 64, rng)
+    tlines = [('read, 4 KiB containers', 'FT r ' + data.hex()), ('read, 64-byte containers', 'FT r ' + data2.hex()),
+              ('write, 4 KiB containers', 'FT w 1 4096' + ''.join(' | ' + g.obj('CanMessage') for _ in range(400))),
+              ('write, 64-byte containers, level 0', 'FT w 0 64' + ''.join(' | ' + g.obj('CanMessage') for _ in range(200)))]
+    ntsan = 0
+    for what, line in tlines:
+        for rep in range(1 if tier == 'quick' else 5):
+            ntsan += 1
+            rc, outp, errp = run_tsan(tsan, line)
+            if 'WARNING: ThreadSanitizer' in errp:
+                nbad += 1
+                first = errp[errp.index('WARNING: ThreadSanitizer'):][:1500]
+                where = [l.strip() for l in first.split('\n') if l.strip().startswith('#0')][:2]
+                v.violation('C11:tsan:%s' % what.split(',')[0], 'ThreadSanitizer reports a data race in a %s session (%s): %s' % (what.split(',')[0], what, ' / '.join(where)[:300]),
+                            {'scenario': line[:100] + '...', 'report': first})
+                break
+            if not outp.startswith('FT ok'):
+                nbad += 1
+                v.violation('C11:tsan:other', 'a %s session under ThreadSanitizer did not finish: %s %s' % (what, outp[:80], errp[:200]), {'scenario': line[:100], 'implementation': outp[:300]})
+                break
     if not ok and not v.violations:
         for fl in failed:
             v.violation('coq:' + fl['lemma'], 'proof obligation %s (%s:%d) no longer checks: %s' % (fl['lemma'], fl['file'], fl['line'], fl['error'][:200]),
@@ -37,10 +71,11 @@ def run(v, tier, seed, replay=None):
     v.coverage.update({
         'obligations': info['obligations'], 'discharged': info['discharged'], 'checker_cmd': info['checker_cmd'],
         'trusted_base': TRUSTED + info['print_assumptions'], 'failed_obligations': info['failed'],
-        'evaluations': 2 * len(runs), 'distinct_nontrivial': 2 * len(runs),
-        'rule': 'a read session of thousands of objects in which the application deletes each object immediately, and a write session in which the worker deletes each object as soon as it is encoded, under AddressSanitizer on the plain build and on builds with seeded yield/sleep injection at every lock/unlock/wait: a use after the hand-over is a heap-use-after-free report. Non-trivial = distinct (session, build, seed).',
+        'evaluations': 2 * len(runs) + ntsan, 'distinct_nontrivial': 2 * len(runs) + len(tlines),
+        'rule': 'a read session of thousands of objects in which the application deletes each object immediately, and a write session in which the worker deletes each object as soon as it is encoded, under AddressSanitizer on the plain build and on builds with seeded yield/sleep injection at every lock/unlock/wait: a use after the hand-over is a heap-use-after-free report; plus read and write sessions (two container sizes each, no accessor call between open() and the first read()/write()) on a ThreadSanitizer build: any data-race report is a violation. Non-trivial = distinct (session, build, seed).',
         'builds': [n for n, _, _ in runs], 'reports': nbad, 'samples': [rlines[0][:60] + '...', wl[0][:80] + '...'],
-        'theorems': ['C11_handover', 'C11_read_single_owner', 'C11_write_single_owner', 'C11_queue_lock_discipline', 'C11_stream_methods_lock_first'],
+        'theorems': ['C11_handover', 'C11_read_single_owner', 'C11_write_single_owner', 'C11_queue_lock_discipline', 'C11_stream_methods_lock_first', 'C11_open_spawns_last'],
+        'tsan_sessions': ntsan,
     })
     v.assumptions += ['a data race in the sense of the C++ memory model is a property of the compiled program: the theorems are about ownership, hand-over order and lock discipline in the model and in the regenerated skeletons']
     return 'proof'
